@@ -80,6 +80,8 @@ Definition flat_obs (o : obs) : list tok :=
   | OFail => [TS "fail"]
   | OClock t => [TS "clock"; TN t]
   | OSvc iid => [TS "svc"; TS iid]
+  | OStarted => [TS "started"]
+  | OStopped => [TS "stopped"]
   end.
 
 Fixpoint ins_hist (e : nat * list nat) (l : list (nat * list nat)) :=
@@ -242,3 +244,40 @@ Definition snap_case (eng : engine) (m : machine) (cx : ctx) (k : nat) (ops : li
   end.
 Definition check_snap (eng : engine) (m : machine) (runs : list (ctx * nat * list (nat * list event) * list (list tok))) : list nat :=
   bad_idx (fun r => match r with (cx, k, ops, expected) => snaps_eqb (snap_case eng m cx k ops) expected end) runs.
+
+(* K-life: arbitrary sequences of lifecycle calls; a snapshot after each *)
+Inductive lop := LStart | LStop | LOp (t : nat) (evs : list event).
+Definition life_step (eng : engine) (m : machine) (o : lop) (s : st) : st * bool :=
+  match o with
+  | LStart => match eng with
+              | Async => match async_loop async_fuel m (catch (async_start m) s) with
+                         | (s1, false) => advance_idle idle_fuel Async m (s_now s1) s1
+                         | r => r end
+              | _ => (catch (sync_start m) s, false)
+              end
+  | LStop => (stop_interp s, false)
+  | LOp t op =>
+      match (if Nat.eqb t 0 then (s, false) else advance_idle idle_fuel eng m t s) with
+      | (s1, true) => (s1, true)
+      | (s1, false) =>
+          match eng with
+          | Async => match async_loop async_fuel m (fold_left (fun s' ev => async_send ev s') op s1) with
+                     | (s2, false) => advance_idle idle_fuel Async m (s_now s2) s2
+                     | r => r end
+          | _ => (match op with [] => s1 | _ => catch (sync_send_events m op) s1 end, false)
+          end
+      end
+  end.
+Fixpoint life_snaps (eng : engine) (m : machine) (s : st) (ops : list lop) : list (list tok) :=
+  match ops with
+  | [] => []
+  | o :: r => match life_step eng m o s with
+              | (_, true) => timeout_snap
+              | (s', false) => flat_st s' :: life_snaps eng m s' r
+              end
+  end.
+Definition life_case (eng : engine) (m : machine) (cx : ctx) (ops : list lop) : list (list tok) :=
+  life_snaps eng m (st_init cx) ops.
+Definition check_life (eng : engine) (m : machine) (runs : list (ctx * list lop * list (list tok))) : list nat :=
+  bad_idx (fun r => let mine := life_case eng m (fst (fst r)) (snd (fst r)) in
+                    existsb is_timeout mine || existsb has_tie mine || snaps_eqb mine (snd r)) runs.
